@@ -213,3 +213,22 @@ class C05(Check):
     assumptions = ["K, RAND, AUTN, OPc (or OP) of 16 octets given as valid hex; MCC of 3 digits; MNC of 2 or 3 digits (anything else ends in fatal.Fatalf = process exit)",
                    "SUPI = \"imsi-\" followed by 5..15 digits (fewer digits: run-time panic in DerivateKamf; more: only the first 15 are used)",
                    "the UE never verifies MAC-A of the AUTN it receives (DeriveRESstarAndSetKey computes f1 and discards it); no property requires it"]
+
+    # ---- process level: the keys RegisterUE itself installs (serving network name, SUPI, algorithm ids as the procedure forms them)
+    def extra(self, harness, build_ok):
+        import os, sys
+        from .. import proc
+        sys.path.insert(0, os.path.join(C.VERIF, "refamf"))
+        binary, err = C.build_emulator()
+        if binary is None:
+            raise RuntimeError("emulator build failed: " + err[-1500:])
+        cfgs = []
+        plmns = [("001", "001"), ("405", "025"), ("208", "93"), ("999", "070")] + ([("310", "410"), ("001", "01"), ("722", "007"), ("234", "15")] if self.tier != "quick" else [])
+        for i, (mcc, mnc) in enumerate(plmns):
+            r = self.rng.fork("reg%d" % i)
+            c = proc.default_cfg(r, counts=[1, 0, 0, 0, 0])
+            msin = c["imsi"][len(c["mcc"]) + len(c["mnc"]):][:15 - len(mcc) - len(mnc)]
+            c.update(mcc=mcc, mnc=mnc, imsi=mcc + mnc + msin)
+            cfgs.append(c)
+        proc.registration_runs(self, binary, cfgs, "key hierarchy: the Security Mode Complete must verify under the network's K_NASint")
+
